@@ -84,7 +84,7 @@ class Entity:
 
 
 class Sim:
-    STEP_CAP = 20000
+    STEP_CAP = 60000
     VTIME_CAP = 600.0
 
     def __init__(self, choices: Choices, *, params: Optional[dict] = None):
@@ -121,6 +121,11 @@ class Sim:
         self.order = self.p.get('order', 'random')        # random fifo lifo
         self.gate_mode = self.p.get('gate_mode', 'free')  # free hold rest
         self.cap_steps = self.p.get('step_cap', self.STEP_CAP)
+        # bounded unfairness: after this many consecutive timeouts fired while a worker could have
+        # made progress, workers run exclusively for a while (a liveness verdict needs a fair scheduler)
+        self.max_starve = self.p.get('max_starve', 6)
+        self.starved = 0
+        self.worker_turn = 0
 
     # ------------------------------------------------------------ recording
     def ev(self, *e) -> None:
@@ -307,6 +312,19 @@ class Sim:
     def _pick(self, acts, cur: Entity):
         if len(acts) == 1:
             return acts[0]
+        if not self.starve_workers:
+            wacts = [a for a in acts if a[1].kind == 'worker' and a[0] != 'timeout']
+            has_timeout = any(a[0] == 'timeout' for a in acts)
+            if wacts and (self.worker_turn > 0 or (has_timeout and self.starved >= self.max_starve)):
+                if self.worker_turn == 0:
+                    self.worker_turn = 60
+                self.worker_turn -= 1
+                self.starved = 0
+                acts = [a for a in acts if a[0] != 'timeout']
+                if len(acts) == 1:
+                    return acts[0]
+            elif not wacts:
+                self.worker_turn = 0
         if self.burst_left > 0:
             for a in acts:
                 if a[1] is cur and a[0] == 'run':
@@ -344,6 +362,8 @@ class Sim:
             else:
                 k, e = self._pick(acts, cur)
                 if k == 'timeout':
+                    if any(x.kind == 'worker' and x.state in ('runnable', 'gated') for x in self.entities):
+                        self.starved += 1
                     if e.deadline > self.clock:
                         self.clock = e.deadline
                     self.timeouts_fired += 1
